@@ -245,7 +245,13 @@ def _main(check):
         exp = c["expect"]
         got = {k: r.get(k) for k in exp}
         if got != exp:
-            if valfail is None: valfail = "the MIR interpreter and the real build disagree on a sampled instance of family %s:\n  case=%s\n  engine=%s\n  real=%s" % (c["family"], str({k: v for k, v in c.items() if k != "expect"})[:1500], str(exp)[:1500], str(got)[:1500])
+            dd = ""
+            for kk in exp:
+                a_, b_ = str(exp[kk]), str(got.get(kk))
+                if a_ != b_:
+                    j_ = next((x for x in range(min(len(a_), len(b_))) if a_[x] != b_[x]), min(len(a_), len(b_)))
+                    dd = "\n  first difference in %r at %d: engine ...%s... real ...%s..." % (kk, j_, a_[max(0, j_-80):j_+80], b_[max(0, j_-80):j_+80]); break
+            if valfail is None: valfail = dd + "\n" + "the MIR interpreter and the real build disagree on a sampled instance of family %s:\n  case=%s\n  engine=%s\n  real=%s" % (c["family"], str({k: v for k, v in c.items() if k != "expect"})[:1500], str(exp)[:1500], str(got)[:1500])
             continue
         nvalid += 1
     log("differential validation: %d sampled instances agree with the real build" % nvalid)
